@@ -1,5 +1,5 @@
 """C10 - masked code computes the unmasked function for every randomness and share count."""
-import random, time, collections, json, os
+import random, time, collections, json, os, re, glob
 import common, diffrun, gen, stdflow
 from common import hx, rnd_bytes
 
@@ -100,10 +100,14 @@ def add_valid_decrypts(driver, corr, stats):
 
 def translator_findings(res):
     """the (T) side's own concrete counter-examples for obligations that no longer hold"""
-    p = os.path.join(common.BUILD, "kern", "mword.json")
-    if not os.path.exists(p):
-        return {}
-    rep = json.load(open(p))
+    rep = {}
+    tool = {}
+    for jf, t in (("mword.json", "kern_mword.py"), ("mword2.json", "kern_mword2.py")):
+        p = os.path.join(common.BUILD, "kern", jf)
+        if os.path.exists(p):
+            part = json.load(open(p))
+            rep.update(part)
+            tool.update({k: t for k in part})
     bad = {k: v for k, v in rep.items() if not v.get("concrete_ok")}
     for k, v in bad.items():
         cex = v.get("counterexample") or {}
@@ -111,7 +115,7 @@ def translator_findings(res):
                       "translated %s does not meet its masking obligation: %s" % (v.get("title", k), cex.get("error") or
                       ("observation %s is %s, the specification gives %s" % (cex.get("observation_index"), cex.get("got"), cex.get("want")))),
                       {"function": v.get("title", k), "obligation": k, "counterexample": cex,
-                       "how": "python3 tools/kern_mword.py /repo re-translates the function and evaluates both sides on `inputs` (region bytes, then random words)"},
+                       "how": "python3 tools/%s /repo re-translates the function and evaluates both sides on `inputs` (region bytes, then random words)" % tool[k]},
                       no_input="error" in cex and False)
     return rep
 
@@ -119,7 +123,20 @@ def translator_findings(res):
 def run(res, tier, seed, replay=None):
     t0 = time.time()
     rng = random.Random(seed)
-    pr = stdflow.prove(res, "C10")
+    # group files Props/Properties_C10_<group>.v (32-bit kernels, remaining word operations) are picked up by glob
+    groups = sorted(glob.glob(os.path.join(common.COQ, "Props", "Properties_C10_*.v")))
+    for g in groups:            # force a re-check: Print Assumptions re-printed, and a stale .vo must not count as checked
+        if os.path.exists(g + "o"):
+            os.remove(g + "o")
+    pr = stdflow.prove(res, "C10", extra_targets=["Props/" + os.path.basename(g) + "o" for g in groups])
+    names, discharged, files = list(pr["names"]), res.cov["discharged"], [{"file": "coq/Props/Properties_C10.v", "theorems": list(pr["names"]), "checked": bool(pr["targets"].get(common.props_file("C10")))}]
+    for g in groups:
+        ns = re.findall(r"^\s*(?:Theorem|Corollary)\s+([A-Za-z0-9_']+)", re.sub(r"\(\*.*?\*\)", "", open(g).read(), flags=re.S), flags=re.M)
+        ok = bool(pr["targets"].get("Props/" + os.path.basename(g) + "o"))
+        files.append({"file": "coq/Props/" + os.path.basename(g), "theorems": ns, "checked": ok})
+        names += ns
+        discharged += len(ns) if ok else 0
+    res.cov.update({"obligations": len(names), "discharged": discharged, "theorems": names, "theorem_files": files})
     rep = translator_findings(res)
     driver = common.build_driver()
     if tier == "quick":
@@ -157,8 +174,9 @@ def run(res, tier, seed, replay=None):
     res.cov.update({
         "evaluations": sum(p["sessions"] for p in per),
         "distinct_nontrivial": sum(p["nontrivial"] for p in per),
-        "rule": "(T) masked permutation kernels (C64 + x86-64 asm, x2/x3/x4, every first_round), masked-word toolkit (C64 + x86-64 asm) and masked-key functions "
-                "(KEY_SHARES 2,3,4) re-translated and proved for all shares and all random words; (D) masked AEAD vs the proved AEAD model under zero/ones/alternating/"
+        "rule": "(T) masked permutation kernels (C64 + C32 + x86-64 asm, x2/x3/x4, every first_round), the whole masked-word toolkit (C64 + C32 + x86-64 asm: load, store, "
+                "randomize, xor, conversions, zero, load_partial/store_partial/replace for size 0..7, load_32, pad for offset 0..7, separator), masked-key functions "
+                "(KEY_SHARES 2,3,4; C64 and C32) and masked-state functions incl. the x1 conversions re-translated and proved for all shares and all random words; (D) masked AEAD vs the proved AEAD model under zero/ones/alternating/"
                 "counter/repeating/pseudo-random tapes, masked-key histories (mask, extract, 0..3 re-randomisations, per-share change flags) under degenerate and short tapes, "
                 "masked-state histories (conversions between 2/3/4 shares, randomize, permute from every round) over backends x share triples",
         "samples": samples,
@@ -166,8 +184,9 @@ def run(res, tier, seed, replay=None):
         "translated_obligations": nobl,
         "input_distribution": {"ops": dict(dist)},
     })
-    res.assumptions += ["clang -O1 LLVM IR of the C64 masked sources and the AT&T lowering table of tools/asm_x86.py stand for the compiled code (the built library is tied by the differential run)",
-                        "masked C32 kernels and C32 word toolkit are covered by the differential run only (no all-input theorem)",
+    res.assumptions += ["clang -O1 LLVM IR of the C64 and C32 masked sources and the AT&T lowering table of tools/asm_x86.py stand for the compiled code (the built library is tied by the differential run)",
+                        "the value functions (un-rotate by 11j / by 5j per 32-bit half, XOR over shares, bit-interleave the halves) are the reading of src/masking/ascon-masked-word.h; "
+                        "size/offset arguments are enumerated over 0..7 (8 is outside the documented range); the masked AEAD mode code is covered by the differential run only",
                         "the random source is the link-time substitute harness/h_trng.cpp (any tape can be scripted); first-order probing security of the masking is out of scope: "
                         "the property is functional equivalence plus 'every share gets its own fresh word'"]
     res.cov["wall_total"] = round(time.time() - t0, 1)
